@@ -583,34 +583,72 @@ def serve_exception(fx, exc, sf):
 
 
 def receive(fx, wire, rf):
-    """run the requester half on wire bytes; returns observation dict"""
+    """run the requester half on wire bytes; returns observation dict.
+    obs["raised"]: the failure of vinegar.load (through _unbox_exc), whether _dispatch lets it escape (obs["escaped"]) or delivers it
+    to the request as its exception (obs["delivered_failure"]); obs["obj"]/obs["caught"]: the rebuilt object when load succeeded"""
     conn = fx.conn(**receiver_cfg(rf))
     res = AsyncResult(conn)
     conn._request_callbacks[77] = res
+    load_fail = []
+    orig = conn._unbox_exc
+
+    def spy(raw):
+        try:
+            return orig(raw)
+        except BaseException as e:
+            load_fail.append(e)
+            raise
+    conn._unbox_exc = spy
     before = set(sys.modules)
     del fx.reg.CALLS[:], fx.reg.IMPORTS[:]
     _audit["imports"], _audit["other"] = [], []
     _audit["on"] = True
-    raised = None
+    escaped = None
     try:
         try:
             conn._dispatch(wire)
         except BaseException as e:
-            raised = e
+            escaped = e
     finally:
         _audit["on"] = False
-    conn._request_callbacks.pop(77, None)
+        del conn._unbox_exc
+    left_registered = conn._request_callbacks.pop(77, None) is not None
     obs = {"imports": [m for m in _audit["imports"]], "audit_other": list(_audit["other"]),
            "new_modules": sorted(set(sys.modules) - before), "calls": list(fx.reg.CALLS), "module_bodies_run": list(fx.reg.IMPORTS),
-           "raised": raised, "obj": MISSING, "caught": None}
-    if raised is None and res._is_ready:
-        obs["obj"] = res._obj
-        obs["is_exc"] = res._is_exc
-        try:
-            res.value
-        except BaseException as e:       # what the requester's code actually sees
-            obs["caught"] = e
+           "raised": load_fail[0] if load_fail else escaped, "escaped": escaped, "left_registered": left_registered,
+           "delivered_failure": False, "obj": MISSING, "caught": None}
+    if escaped is None and res._is_ready:
+        if load_fail:
+            obs["delivered_failure"] = bool(res._is_exc) and res._obj is load_fail[0]
+            obs["delivered_obj"] = res._obj
+        else:
+            obs["obj"] = res._obj
+            obs["is_exc"] = res._is_exc
+            try:
+                res.value
+            except BaseException as e:       # what the requester's code actually sees
+                obs["caught"] = e
     return obs
+
+
+def check_delivery(ctx, case, descr, obs):
+    """Connection._dispatch on an exception message whose payload cannot be rebuilt: on a tree with _dispatch_response the failure
+    is the request's exception and nothing escapes (EOFError excepted); on a tree that unboxes inline it escapes _dispatch"""
+    if obs["raised"] is None:
+        return
+    D = gen_facts().get("dispatch_delivers_rebuild_failure", "false") == "true"
+    e = obs["raised"]
+    ctx.model_traces += 1
+    if D and not isinstance(e, EOFError):
+        if obs["escaped"] is not None or not obs["delivered_failure"] or obs["left_registered"]:
+            ctx.violation("rebuild-failure-not-delivered-to-request", case,
+                          observed={"escaped": short(obs["escaped"]), "delivered": short(obs.get("delivered_obj", None)), "callback_left": obs["left_registered"]},
+                          expected="the request's callback receives %s as its exception; nothing escapes _dispatch" % type(e).__name__,
+                          what="a response that cannot be rebuilt must fail the request it answers [" + descr + "]")
+    else:
+        if obs["escaped"] is not e:
+            ctx.tie_broken("correspondence:dispatch-delivery", "%s: model: %s escapes _dispatch; impl escaped=%s delivered=%s"
+                           % (descr, type(e).__name__, short(obs["escaped"]), obs["delivered_failure"]))
 
 
 def base_of(obj):
@@ -1017,6 +1055,7 @@ def run_cases(ctx, fx, cases, model):
         env = env_sx(fx, modname, clsname)
         was_loaded = isinstance(modname, str) and modname in sys.modules
         obs = receive(fx, wire, rf)
+        check_delivery(ctx, case, descr, obs)
         loads.append(["load", MODE, list(rf), env, to_sx(payload2)])
         todo.append((case, exc, descr, obs, tbtext, payload2, modname, clsname, was_loaded))
         fx.unload_lazy()
